@@ -59,7 +59,7 @@ HEADS = {
     "H+I": lambda j: [("H", (0x7700 + j,)), ("I", None)],   # I is read-only
     "+I": lambda j: [("I", None)],
 }
-TAILS = [None, ("b", 0), 0, ("b", 1), 1, ("b", 5), 3]
+TAILS = [None] + [("b", n) for n in range(9)] + list(range(9))
 SHAPES = [(h, t) for h in HEADS for t in TAILS if (h, t) != ("-", None)]
 EMPTY_TAIL = [(h, t) for h, t in SHAPES if t in (("b", 0), 0)]
 PAIR_SHAPES = EMPTY_TAIL + [("HB", ("b", 5)), ("H+I", None), ("-", 3)]
